@@ -452,6 +452,7 @@ func TestC41(t *testing.T) {
 		r.Extra("trie_nodes_"+bg.name, len(pref)+1)
 		checkTrie(r, seq, qs, id)
 	}
+	trieLongKeys(r)
 	nTR := r.N(2000, 60000)
 	r.Par(nTR, func(i int) {
 		id := fmt.Sprintf("trie/rand/%d", i)
@@ -472,6 +473,54 @@ func TestC41(t *testing.T) {
 			r.Sample("trie-random", fmt.Sprintf("%q", seq))
 		}
 		checkTrie(r, seq, queries, id)
+	})
+}
+
+// trieLongKeys: few keys, each up to 400 bytes over {a,b,00,ff} (one Insert then creates hundreds of nodes at once),
+// sharing long prefixes; queried with the keys, their prefixes and extensions.
+func trieLongKeys(r *vlib.Run) {
+	alpha := []byte{'a', 'b', 0x00, 0xff}
+	n := r.N(600, 20000)
+	r.Par(n, func(i int) {
+		id := fmt.Sprintf("trie/long/%d", i)
+		if !r.Want(id) {
+			return
+		}
+		rng := r.Rng(id)
+		mk := func(l int) string {
+			b := make([]byte, l)
+			for j := range b {
+				b[j] = alpha[rng.Intn(len(alpha))]
+			}
+			return string(b)
+		}
+		nk := rng.Range(1, 6)
+		var seq []string
+		for k := 0; k < nk; k++ {
+			l := []int{rng.Range(1, 8), rng.Range(20, 70), rng.Range(60, 160), rng.Range(150, 400)}[rng.Intn(4)]
+			key := mk(l)
+			if len(seq) > 0 && rng.Chance(0.5) {
+				// extend or branch off an earlier key
+				base := seq[rng.Intn(len(seq))]
+				cut := rng.Intn(len(base) + 1)
+				key = base[:cut] + key
+			}
+			seq = append(seq, key)
+		}
+		var qs []string
+		for _, k := range seq {
+			qs = append(qs, k, k+mk(rng.Range(1, 3)))
+			if len(k) > 1 {
+				qs = append(qs, k[:rng.Intn(len(k))], k[:len(k)-1])
+			}
+		}
+		qs = append(qs, "", mk(rng.Range(1, 40)))
+		r.Eval(fmt.Sprintf("%q", seq))
+		r.Class("trie-long-keys")
+		if i == 0 {
+			r.Sample("trie-long-keys", fmt.Sprintf("%q", seq))
+		}
+		checkTrie(r, seq, qs, id)
 	})
 }
 
